@@ -641,6 +641,75 @@ def main():
           "def tldProducts : List (String × String × String) := ["
           + ", ".join(f"({lstr(a)}, {lstr(b)}, {lstr(c)})" for a, b, c in tl) + "]", ""]
 
+    # ---- round 5e: GeoGrid.region_indices (reshape, conditional longitude remapping, the
+    # (lon, lat) pairing of the nodes, delegation to matplotlib)
+    ri = stmts(ggm["region_indices"])
+    need(len(ri) == 4 and isinstance(ri[0], ast.Assign) and isinstance(ri[1], ast.If)
+         and isinstance(ri[2], ast.Assign) and isinstance(ri[3], ast.Return),
+         "region_indices: assignment, if, assignment, return")
+    rname = ast.unparse(ri[0].targets[0])
+    rv = ri[0].value
+    need(isinstance(rv, ast.Call) and isinstance(rv.func, ast.Attribute) and rv.func.attr == "reshape"
+         and ast.unparse(rv.func.value) in ("np.array(region)", "np.array(region, copy=True)",
+                                            "np.copy(region)")
+         and len(rv.args) == 2, "region_indices: np.array(region).reshape(rows, cols)")
+    rt = ri[1].test
+    need(isinstance(rt, ast.Compare) and len(rt.ops) == 1 and isinstance(rt.left, ast.Call)
+         and isinstance(rt.left.func, ast.Attribute) and rt.left.func.attr in ("min", "max")
+         and isinstance(rt.left.func.value, ast.Subscript)
+         and ast.unparse(rt.left.func.value.value) in ("self._grid['space']", 'self._grid["space"]')
+         and isinstance(rt.left.func.value.slice, ast.Constant) and not ri[1].orelse,
+         "region_indices: if self._grid['space'][k].min() <op> c:")
+    rop = {ast.Gt: ">", ast.Lt: "<", ast.GtE: "≥", ast.LtE: "≤"}.get(type(rt.ops[0]))
+    need(rop, "region_indices: comparison operator of the guard")
+    need(len(ri[1].body) == 1 and isinstance(ri[1].body[0], ast.Assign)
+         and isinstance(ri[1].body[0].targets[0], ast.Subscript), "region_indices: one masked store")
+    ms = ri[1].body[0]
+    tg = ms.targets[0]
+    need(ast.unparse(tg.value) == rname and isinstance(tg.slice, ast.Tuple) and len(tg.slice.elts) == 2
+         and isinstance(tg.slice.elts[1], ast.Constant) and isinstance(tg.slice.elts[0], ast.Compare)
+         and len(tg.slice.elts[0].ops) == 1,
+         "region_indices: remapped_region[<mask>, col] = …")
+    mask = tg.slice.elts[0]
+    col = tg.slice.elts[1].value
+    colref = f"{rname}[:, {col}]"
+    need(ast.unparse(mask.left) == colref, "region_indices: the mask tests the column it stores to")
+    mop = {ast.Gt: ">", ast.Lt: "<", ast.GtE: "≥", ast.LtE: "≤"}.get(type(mask.ops[0]))
+    need(mop, "region_indices: comparison operator of the mask")
+    sel = ast.unparse(tg)
+
+    class R3(ast.NodeTransformer):
+        def visit_Subscript(self, n):
+            return ast.Name(id="x") if ast.unparse(n) == sel else self.generic_visit(n)
+    mval = tr(R3().visit(ms.value))
+    cs = ri[2].value
+    need(isinstance(cs, ast.Call) and ast.unparse(cs.func) == "np.column_stack" and len(cs.args) == 1
+         and isinstance(cs.args[0], ast.Tuple), "region_indices: np.column_stack((…, …))")
+    cols = []
+    for e_ in cs.args[0].elts:
+        need(isinstance(e_, ast.Subscript) and isinstance(e_.slice, ast.Constant)
+             and ast.unparse(e_.value) in ("self._grid['space']", 'self._grid["space"]'),
+             "region_indices: column_stack of rows of self._grid['space']")
+        cols.append(int(e_.slice.value))
+    pname = ast.unparse(ri[2].targets[0])
+    L += ["/-- round 5e — `GeoGrid.region_indices`: the shape the region is brought into -/",
+          f"def regReshape : String × String := ({lstr(ast.unparse(rv.func.value))}, "
+          f"{lstr(', '.join(ast.unparse(a) for a in rv.args))})",
+          "/-- the guard of the remapping: (row of `_grid[\"space\"]`, reduction) and its test -/",
+          f"def regGuardRow : Nat × String := ({int(rt.left.func.value.slice.value)}, "
+          f"{lstr(rt.left.func.attr)})",
+          "def regGuard {α : Type} [LE α] [LT α] [DecidableLE α] [DecidableLT α] [OfNat α 0] "
+          f"(m : α) : Bool := decide (m {rop} {tr(rt.comparators[0])})",
+          "/-- the masked store: column, mask on one entry `x` of that column, value stored -/",
+          f"def regRemapCol : Nat := {int(col)}",
+          "def regRemap {α : Type} [Add α] [Sub α] [LE α] [LT α] [DecidableLE α] [DecidableLT α] "
+          "[OfNat α 0] [OfNat α 360] (x : α) : α :=",
+          f"  if x {mop} {tr(mask.comparators[0])} then {mval} else x",
+          "/-- the rows of `_grid[\"space\"]` stacked as the columns of the tested points -/",
+          f"def regPointRows : List Nat := [{', '.join(str(c) for c in cols)}]",
+          f"def regReturn : String := {lstr(ast.unparse(ri[3].value).replace(rname, 'R').replace(pname, 'P'))}",
+          ""]
+
     L += ["/-- (method, expression, is the outermost call `.copy()` / `np.array` / `np.copy`) for every "
           "local that holds a distance matrix of the grid and is edited in place (subscript store / "
           "augmented assignment) in that method -/",
